@@ -206,6 +206,7 @@ def wf_filter(sets: list[dict], drv: core.Driver, jobs: int) -> list[dict]:
             reached |= set(v.get("reached", []))
         if ok:
             s["rs"]["_unreachable"] = sum(len(r) for r in s["rs"]["ops"]) - len(reached)
+            s["rs"]["_reached"] = sorted(reached)     # positions (in the flattened op list) some routine entry reaches
             out.append(s)
     return out
 
